@@ -12,6 +12,15 @@ Theorem statics_all_classified :
 Proof. exact ApiProofs.statics_classified_l. Qed.
 Print Assumptions statics_all_classified.
 
+(* the multipass variables (classified "reset before use"): the REGENERATED reset clears every byte of the
+   REGENERATED array, before the first loop of every stage function, and only the pass interpreters touch them *)
+Theorem pass_variables_fully_reset :
+  passvars_reset_bytes = passvars_elem_bytes * passvars_count /\
+  forallb ApiProofs.resets_first ApiProofs.stage_functions = true /\
+  forallb (fun u => existsb (String.eqb (snd u)) ["passDoTest"; "passDoAction"; "doPassSearch"; "back_passDoTest"; "back_passDoAction"]%string) passvars_users = true.
+Proof. exact ApiProofs.passvars_reset_l. Qed.
+Print Assumptions pass_variables_fully_reset.
+
 (* the table cache is keyed by the complete list string: the REGENERATED comparison holds exactly
    for equal names (a prefix, or a name sharing a prefix, is a different key) *)
 Theorem cache_key_is_the_whole_name : forall a b, key_hit a b = true <-> a = b.
